@@ -669,11 +669,13 @@ package iscp
 // closed, the watcher waits for Connected and resumes THIS stream on the connection's current
 // wire connection; after a successful resume it runs the stream again (as resumed).
 //@ func (*Conn).OpenUpstream$3
-//@   props C05
+//@   props C05 C10
+//@   requires[unchecked] c != nil && c.state != nil && c.state.cond != nil && c.state.RWMutex != nil
+//@   forbid call connStatus).WaitUntil$   // C10: a plain WaitUntil never returns once the connection is Closed (the watcher would outlive Close)
 //@   ghostvar waited bool = false
 //@   ghostvar resumed bool = false
-//@   after call WaitUntil: waited = (res0 == nil)
-//@   assert call WaitUntil: arg2 == connStatusConnected
+//@   after call WaitUntilOrClosed: waited = (res0 == nil)
+//@   assert call WaitUntilOrClosed: arg2 == connStatusConnected
 //@   assert call Upstream).resume: waited && arg0 == u && arg1 == c.wireConn
 //@   after call Upstream).resume: resumed = (res0 == nil)
 //@   after call Upstream).resume: waited = false
@@ -681,10 +683,12 @@ package iscp
 //@   loop 1 invariant !waited && isResume == resumed
 
 //@ func (*Conn).OpenDownstream$3
-//@   props C05
+//@   props C05 C10
+//@   requires[unchecked] c != nil && c.state != nil && c.state.cond != nil && c.state.RWMutex != nil
+//@   forbid call connStatus).WaitUntil$   // C10: a plain WaitUntil never returns once the connection is Closed (the watcher would outlive Close)
 //@   ghostvar waited bool = false
-//@   after call WaitUntil: waited = (res0 == nil)
-//@   assert call WaitUntil: arg2 == connStatusConnected
+//@   after call WaitUntilOrClosed: waited = (res0 == nil)
+//@   assert call WaitUntilOrClosed: arg2 == connStatusConnected
 //@   assert call Downstream).resume: waited && arg0 == down && arg1 == c
 //@   after call Downstream).resume: waited = false
 //@   assert call Downstream).run: arg0 == down
